@@ -821,4 +821,24 @@ theorem render_run {σ} (g : Gen σ ν) (s0 : σ) (split : Int) (tmpl : List Cha
       | error e => rfl
       | ok p => obtain ⟨a, b⟩ := p; rfl
 
+/-! ### the output directory: with pairwise distinct names no write is overwritten -/
+theorem disk_none_of_not_mem [DecidableEq ν] (fs : List (File ν)) (n : ν) (h : n ∉ fs.map (·.1)) : disk fs n = none := by
+  induction fs with
+  | nil => rfl
+  | cons f fs ih =>
+    simp only [List.map_cons, List.mem_cons, not_or] at h
+    simp only [disk, ih h.2]
+    simp [Ne.symm h.1]
+
+theorem disk_of_nodup [DecidableEq ν] (fs : List (File ν)) (hn : (fs.map (·.1)).Nodup) :
+    ∀ f ∈ fs, disk fs f.1 = some f.2 := by
+  induction fs with
+  | nil => intro f hf; cases hf
+  | cons g fs ih =>
+    simp only [List.map_cons, List.nodup_cons] at hn
+    intro f hf
+    rcases List.mem_cons.mp hf with rfl | hf
+    · simp [disk, disk_none_of_not_mem fs f.1 hn.1]
+    · simp [disk, ih hn.2 f hf]
+
 end PlasVerif.Proofs.Render
